@@ -112,7 +112,7 @@ class Run:
         cov['inconclusive'] = n('inconclusive')
         cov['violated'] = n('violated')
         cov['known_findings_reproduced'] = len(self.known_hits)
-        cov['solver_time_s'] = round(sum(o['solver_s'] for o in obs), 2)
+        cov.setdefault('solver_time_s', round(sum(o['solver_s'] for o in obs), 2))
         cov.setdefault('samples', self.samples[:12] or [o['name'] for o in obs[:5]] or ['<none>'])
         cov.setdefault('functions_encoded', self.functions)
         cov.setdefault('bounds', self.bounds)
